@@ -64,3 +64,34 @@ Definition terminals_not_placeholders (g : wgraph) : Prop :=
 (* nothing has a weight yet *)
 Definition unweighted (g : wgraph) : Prop :=
   (forall x, n_weights (node_of g x) = []) /\ (forall x e, In e (edges_from g x) -> e_weights e = []).
+
+(* ---- the three hypotheses, decidable: a concrete graph is checked by evaluation ---- *)
+Definition rank_fn (l : list (str * nat)) (x : str) : nat := match assoc x l with Some n => n | None => 0%nat end.
+
+(* height of a node: one more than the highest target, unfolded [fuel] times *)
+Fixpoint height (g : wgraph) (fuel : nat) (x : str) : nat :=
+  match fuel with
+  | O => 0%nat
+  | S f => fold_left (fun h e => Nat.max h (S (height g f (e_to e)))) (edges_from g x) 0%nat
+  end.
+Definition heights (g : wgraph) : list (str * nat) :=
+  map (fun n => (n_id n, height g (S (length (g_nodes g))) (n_id n))) (g_nodes g).
+
+Definition check_ranked (g : wgraph) (l : list (str * nat)) : bool :=
+  forallb (fun p : str * list wedge =>
+             forallb (fun e => str_eqb (e_from e) (fst p) && (rank_fn l (e_to e) <? rank_fn l (fst p))%nat) (snd p))
+          (g_edges g).
+Definition check_terminals (g : wgraph) : bool :=
+  forallb (fun p : str * list wedge =>
+             forallb (fun e => let t := n_type (node_of g (e_to e)) in
+                               negb (is_terminal t) || negb (is_ref_key (term_label t (e_to e)))) (snd p))
+          (g_edges g).
+Definition check_unweighted (g : wgraph) : bool :=
+  forallb (fun n => match n_weights n with [] => true | _ => false end) (g_nodes g) &&
+  forallb (fun p : str * list wedge => forallb (fun e => match e_weights e with [] => true | _ => false end) (snd p)) (g_edges g).
+
+Definition dag_check (g : wgraph) : bool :=
+  check_ranked g (heights g) && check_terminals g && check_unweighted g.
+
+(* the specification with the rank computed from the graph itself *)
+Definition spec_weights (g : wgraph) (x : str) : wmap := gspec g (S (rank_fn (heights g) x)) x.
